@@ -3,7 +3,7 @@ import itertools
 import random
 
 from core import proto
-from .common import case, guarded, ordinal_instance, strict, rand_perm
+from .common import case, guarded, ordinal_instance, strict, rand_perm, snapshot, snap_diff
 
 ID = "C20"
 COVER_FILES = ["properties/distances.py"]
@@ -14,18 +14,29 @@ RULE = ("exhaustive: all ordered pairs of permutations of {1..n} for n <= 5 (qui
         "form, distance_matrix on random soc profiles with multiplicities. Every returned number is compared with "
         "the extracted model (kt_spec, footrule/sertel numerator and denominator); in addition the clauses the "
         "property names (symmetry, zero iff identical, range [0,1], triangle, matrix shape / symmetry / zero "
-        "diagonal) are evaluated directly on the implementation's numbers. "
+        "diagonal) are evaluated directly on the implementation's numbers. Long rankings (283..400 alternatives) "
+        "differing by one adjacent swap. History cases (c20.hist) on ONE instance object inside one worker call: "
+        "appends through every entry point (numpy.int64 ids / counts included), distance_matrix and the three "
+        "distances asked repeatedly and in several orders, maintenance calls (recompute_cardinality_param, "
+        "flatten_strict, full_profile, vote_map, infer_type) in between, storage order of instance.orders / "
+        "multiplicity / alternatives_name decoupled, a second instance over the same ids and calls on rankings of "
+        "other lengths (refusals included) interleaved; every answer is judged against the model of the profile as "
+        "it should be at that point, the semantic content of the instance (common.snapshot) must be unchanged by "
+        "every query, mutable arguments must be left unchanged, and every returned object (matrix, full profile, "
+        "vote map, flattened list) is overwritten in place before the next question. "
         "non-trivial = the rankings differ (for distance_matrix: >= 2 distinct orders and some multiplicity > 1)")
 EXHAUSTIVE = {"quick": "all pairs of permutations n<=4; all triples n<=3; all different-length pairs over <=3 alternatives",
               "thorough": "all pairs of permutations n<=5; all triples n<=4; all different-length pairs over <=4 alternatives"}
 THEOREMS_FOR_OP = {"c20.kt": "kt_spec, kt_zero_iff, kt_sym, kt_length_mismatch",
                    "c20.footrule": "footrule_num_spec, footrule_sym, footrule_zero_iff, footrule_range, footrule_length_mismatch",
                    "c20.sertel": "sertel_sym, sertel_zero_iff, sertel_range, sertel_length_mismatch",
-                   "c20.tri": "kt_triangle", "c20.dm": "dm_spec, dm_instance, expand_profile_count"}
+                   "c20.tri": "kt_triangle", "c20.dm": "dm_spec, dm_instance, expand_profile_count",
+                   "c20.hist": "dm_spec, dm_instance, expand_profile_count, kt_spec, footrule_num_spec, sertel_range"}
 TRUSTED = ["modelled: preflibtools/properties/distances.py (all four functions) and OrdinalInstance.full_profile; "
            "the final floating-point division of spearman_footrule_distance / sertel_distance is compared as "
            "float(impl) == num/den with one IEEE division (numpy float64 semantics trusted)"]
-ASSUMPTIONS = ["rankings are tuples of hashable alternatives compared by ==; ids are non-negative integers"]
+ASSUMPTIONS = ["rankings are sequences (tuples or lists) of hashable alternatives compared by ==; ids are non-negative "
+               "integers (int or numpy.int64)"]
 TIMEOUT_S = 30.0
 
 
@@ -68,7 +79,7 @@ def generate(tier, seed):
         p = rand_perm(rng, ids)
         q = _perturb(rng, p)
         for op in PAIR_OPS:
-            out.append(case(op, [p, q], n=n, tup=i % 2))
+            out.append(case(op, [p, q], n=n, tup=i % 3))
     # random different lengths with arbitrary ids (one ranking is a prefix / an extension of the other)
     for i in range(30 if tier == "quick" else 300):
         n = rng.randint(1, 12)
@@ -103,7 +114,312 @@ def generate(tier, seed):
         # hist=1: the instance is built through the public append API in two phases with a
         # distance_matrix / full_profile call in between (history-dependent state must not leak)
         out.append(case("c20.dm", [i % 3, prof], dm=1, hist=i % 2, hseed=rng.randrange(10 ** 6)))
+    # long rankings that differ by ONE swap of two neighbours (smallest non-zero footrule / sertel values)
+    for i, n in enumerate([283, 284, 331, 400] if tier == "quick" else [283, 284, 285, 300, 331, 400, 512, 700]):
+        ids = rng.sample(range(0, 5 * n), n)
+        p = rand_perm(rng, ids)
+        for pos in (rng.randrange(n - 1), n - 2, 0):
+            q = list(p)
+            q[pos], q[pos + 1] = q[pos + 1], q[pos]
+            out.append(case("c20.footrule", [p, q], n=n, long=1, tup=i % 2))
+            out.append(case("c20.sertel", [p, q], n=n, long=1, tup=i % 2))
+        out.append(case("c20.kt", [p, q], n=n, long=1, tup=i % 2))
+    # histories on one instance object
+    for i in range(90 if tier == "quick" else 900):
+        out.append(case("c20.hist", _gen_script(rng, i), hist=1))
     return out
+
+
+# ---------------------------------------------------------------------------------------------------
+# history cases.  A script is a list of steps (nested ints only, so that the case is its own replay):
+#   [0, method, rankings]      append: 0 append_order (one call per ranking), 1 append_order_list, 2 append_vote_map
+#                              (counted), 3 append_order_array, 4 append_vote_map with numpy.int64 counts,
+#                              5 append_order with numpy.int64 ids
+#   [1, which, poison]         M = distance_matrix(inst, distance[which])  -> judged;  poison: M.fill(-3) afterwards
+#   [2, which, i, j, form, norm]  distance[which](row i, row j) of the distinct orders -> judged; form 0 tuples of
+#                              1-tuples, 1 python lists (must be unchanged afterwards), 2 tuples of numpy.int64;
+#                              norm: kendall_tau_distance(normalise=True) is asked first
+#   [3, kind]                  0 recompute_cardinality_param, 1 flatten_strict, 2 full_profile, 3 vote_map, 4 infer_type;
+#                              the returned object is overwritten in place
+#   [4, kind]                  storage order: 0 reverse instance.orders in place, 1 rebuild multiplicity with reversed
+#                              key order, 2 pop and re-insert the first key of multiplicity, 3 reverse alternatives_name
+#   [5, which, profile, via]   a SECOND instance over the same ids: distance_matrix of it -> judged; it stays alive
+#   [6, which, o1, o2, form]   a call on two free rankings (other length, different lengths = refusal) -> judged
+# ---------------------------------------------------------------------------------------------------
+def _gen_script(rng, i):
+    m = rng.randint(2, 6)
+    alts = rng.sample(range(1, 40), m)
+    pool = []
+    for _ in range(rng.randint(2, 5)):
+        o = rand_perm(rng, alts)
+        if o not in pool:
+            pool.append(o)
+    script = [[0, rng.randrange(6), [list(o) for o in pool[: rng.randint(1, len(pool))]]]]   # all multiplicities 1
+    if i % 2 == 0:
+        script.append([3, 2])                                  # full_profile() while every order has one voter
+    script.append([1, rng.randrange(3), i % 3 == 0])
+    for _ in range(rng.randint(5, 11)):
+        x = rng.random()
+        if x < 0.30:
+            k = rng.randint(1, 4)
+            script.append([0, rng.randrange(6), [list(rng.choice(pool)) for _ in range(k)]])
+        elif x < 0.50:
+            script.append([1, rng.randrange(3), rng.random() < 0.5])
+        elif x < 0.68:
+            script.append([2, rng.randrange(3), rng.randrange(8), rng.randrange(8), rng.randrange(3), rng.random() < 0.4])
+        elif x < 0.80:
+            script.append([3, rng.randrange(5)])
+        elif x < 0.88:
+            script.append([4, rng.randrange(4)])
+        elif x < 0.94:
+            prof2 = []
+            for _ in range(rng.randint(1, 3)):
+                o = rand_perm(rng, alts)
+                if o not in [q for q, _ in prof2]:
+                    prof2.append([o, rng.randint(1, 3)])
+            script.append([5, rng.randrange(3), prof2, rng.randrange(2)])
+        else:
+            n2 = rng.randint(2, 8)
+            ids2 = rng.sample(range(1, 40), n2)
+            o1 = rand_perm(rng, ids2)
+            o2 = rand_perm(rng, ids2)
+            if rng.random() < 0.5:
+                o2 = o2[: rng.randint(0, n2 - 1)]           # different lengths: must be refused
+                if rng.random() < 0.5:
+                    o1, o2 = o2, o1
+            script.append([6, rng.randrange(3), o1, o2, rng.randrange(2)])
+    ws = [0, 1, 2]
+    rng.shuffle(ws)
+    script += [[1, ws[0], True], [1, ws[1], False], [1, ws[0], False], [1, ws[2], True]]
+    return script
+
+
+class _State:
+    """the profile as it should be after the steps so far (distinct orders in the order of instance.orders)"""
+
+    def __init__(self):
+        self.orders, self.mult = [], {}
+
+    def append(self, rankings):
+        for r in rankings:
+            r = tuple(r)
+            if r in self.mult:
+                self.mult[r] += 1
+            else:
+                self.orders.append(r)
+                self.mult[r] = 1
+
+    def step(self, st):
+        if st[0] == 0:
+            self.append(st[2])
+        elif st[0] == 4 and st[1] == 0:
+            self.orders.reverse()
+
+    def profile(self):
+        return [[list(o), self.mult[o]] for o in self.orders]
+
+    def request(self, st):
+        """the model question a step asks, or None"""
+        if st[0] == 1:
+            return ("c20.dm", [st[1], self.profile()])
+        if st[0] == 2 and self.orders:
+            o1, o2 = self.orders[st[2] % len(self.orders)], self.orders[st[3] % len(self.orders)]
+            return (PAIR_OPS[st[1]], [list(o1), list(o2)])
+        if st[0] == 5:
+            return ("c20.dm", [st[1], st[2]])
+        if st[0] == 6:
+            return (PAIR_OPS[st[1]], [st[2], st[3]])
+        return None
+
+
+def _plan(script):
+    st, reqs = _State(), []
+    for s in script:
+        st.step(s)
+        q = st.request(s)
+        if q is not None:
+            reqs.append(q)
+    return reqs
+
+
+def _mat_obs(mat):
+    import numpy as np
+    if not isinstance(mat, np.ndarray) or mat.ndim != 2:
+        return {"bad": "distance_matrix did not return a 2-dimensional numpy array: %r" % (type(mat),)}
+    return {"shape": list(mat.shape), "m": [[float(x) for x in row] for row in mat]}
+
+
+def _answer(op, fn, a1, a2):
+    """one guarded call -> [0, int] | {"float": x} | [1, code] | {"bad": text}"""
+    r = guarded(fn, a1, a2)
+    if r[0] == 0:
+        v = r[1]
+        if op == "c20.kt":
+            if isinstance(v, bool) or not (isinstance(v, int) or hasattr(v, "__index__")):
+                return {"bad": "kendall_tau_distance returned non-integer %r" % (v,)}
+            return [0, int(v)]
+        return {"float": float(v)}
+    return r
+
+
+def _args(o1, o2, form):
+    import numpy as np
+    if form == 1:
+        return list(o1), list(o2)
+    if form == 2:
+        return tuple(np.int64(a) for a in o1), tuple(np.int64(a) for a in o2)
+    return tuple((a,) for a in o1), tuple((a,) for a in o2)
+
+
+def _hist_impl(c):
+    state = {"k": -1, "problems": []}
+    try:
+        return _hist_run(c, state)
+    except Exception as e:      # an exception in the middle of a history: say where, and what was already wrong
+        msg = "history step %d %r raised %s: %s" % (state["k"], c["payload"][state["k"]], type(e).__name__, str(e)[:200])
+        if state["problems"]:
+            msg += " | before that: " + state["problems"][0]
+        return {"crash": msg}
+
+
+def _hist_run(c, state):
+    import numpy as np
+    from preflibtools.instances import OrdinalInstance
+    from preflibtools.properties import distances as D
+    fns = [D.kendall_tau_distance, D.spearman_footrule_distance, D.sertel_distance]
+    inst = OrdinalInstance()
+    keep = []                       # second instances and returned objects stay alive until the end
+    obs, problems = [], state["problems"]
+    st = _State()
+    junk = ((10 ** 9,), (10 ** 9 + 1,))
+
+    def pure(k, what, before):
+        d = snap_diff(before, snapshot(inst))
+        if d:
+            problems.append("step %d: %s changed the instance it was asked about: %s" % (k, what, d))
+
+    for k, s in enumerate(c["payload"]):
+        state["k"] = k
+        st.step(s)
+        kind = s[0]
+        if kind == 0:
+            meth, rankings = s[1], s[2]
+            if meth == 0:
+                for r in rankings:
+                    inst.append_order(tuple(r))
+            elif meth == 5:
+                for r in rankings:
+                    inst.append_order(tuple(np.int64(a) for a in r))
+            elif meth == 1:
+                inst.append_order_list([tuple((a,) for a in r) for r in rankings])
+            elif meth == 3:
+                inst.append_order_array(np.array(rankings))
+            else:
+                vm = {}
+                for r in rankings:
+                    key = tuple((a,) for a in r)
+                    vm[key] = vm.get(key, 0) + 1
+                if meth == 4:
+                    vm = {key: np.int64(v) for key, v in vm.items()}
+                inst.append_vote_map(vm)
+        elif kind == 1:
+            before = snapshot(inst)
+            mat = D.distance_matrix(inst, fns[s[1]])
+            obs.append(_mat_obs(mat))
+            pure(k, "distance_matrix", before)
+            if s[2] and isinstance(mat, np.ndarray):
+                mat.fill(-3.0)
+                pure(k, "overwriting the matrix returned by distance_matrix", before)
+            keep.append(mat)
+        elif kind == 2:
+            if not st.orders:
+                continue
+            o1, o2 = st.orders[s[2] % len(st.orders)], st.orders[s[3] % len(st.orders)]
+            a1, a2 = _args(o1, o2, s[4])
+            c1, c2 = list(a1), list(a2)
+            before = snapshot(inst)
+            op = PAIR_OPS[s[1]]
+            if op == "c20.kt" and s[5] and len(o1) >= 2:
+                nv = fns[0](a1, a2, normalise=True)
+                fns[0](a2, a1, normalise=True)
+                plain = fns[0](a1, a2)
+                npairs = len(o1) * (len(o1) - 1) // 2
+                if float(nv) != plain / npairs:
+                    problems.append("step %d: kendall_tau_distance(normalise=True) = %r but count %r / %d pairs"
+                                    % (k, nv, plain, npairs))
+            obs.append(_answer(op, fns[s[1]], a1, a2))
+            if list(a1) != c1 or list(a2) != c2 or len(a1) != len(c1) or len(a2) != len(c2):
+                problems.append("step %d: %s modified the rankings it was given: %r, %r -> %r, %r"
+                                % (k, op, c1, c2, a1, a2))
+            pure(k, op, before)
+        elif kind == 3:
+            before = snapshot(inst)
+            if s[1] == 0:
+                inst.recompute_cardinality_param()
+                what = "recompute_cardinality_param"
+            elif s[1] == 1:
+                res = inst.flatten_strict()
+                what = "flatten_strict (result cleared)"
+                keep.append(res)
+                if isinstance(res, list):
+                    res.clear()
+            elif s[1] == 2:
+                res = inst.full_profile()
+                what = "full_profile (result overwritten)"
+                keep.append(res)
+                if isinstance(res, list):
+                    res.append(junk)
+                    res.reverse()
+                    if len(res) > 1:
+                        del res[1]
+            elif s[1] == 3:
+                res = inst.vote_map()
+                what = "vote_map (result overwritten)"
+                keep.append(res)
+                if isinstance(res, dict):
+                    for key in list(res):
+                        res[key] = 0
+                    res[junk] = 7
+            else:
+                inst.infer_type()
+                what = "infer_type"
+            pure(k, what, before)
+        elif kind == 4:
+            if s[1] == 0:
+                inst.orders.reverse()
+            elif s[1] == 1:
+                inst.multiplicity = dict(reversed(list(inst.multiplicity.items())))
+            elif s[1] == 2:
+                if inst.multiplicity:
+                    key = next(iter(inst.multiplicity))
+                    inst.multiplicity[key] = inst.multiplicity.pop(key)
+            else:
+                items = list(inst.alternatives_name.items())
+                inst.alternatives_name.clear()
+                inst.alternatives_name.update(reversed(items))
+        elif kind == 5:
+            which, prof2, via = s[1], s[2], s[3]
+            if via:
+                b = OrdinalInstance()
+                b.append_vote_map({tuple((a,) for a in o): mu for o, mu in prof2})
+            else:
+                b = ordinal_instance([(strict(o), mu) for o, mu in prof2], data_type="soc")
+            keep.append(b)
+            before, before_b = snapshot(inst), snapshot(b)
+            obs.append(_mat_obs(D.distance_matrix(b, fns[which])))
+            pure(k, "distance_matrix of ANOTHER instance", before)
+            d = snap_diff(before_b, snapshot(b))
+            if d:
+                problems.append("step %d: distance_matrix changed the instance it was asked about: %s" % (k, d))
+        elif kind == 6:
+            a1, a2 = _args(s[2], s[3], s[4])
+            c1, c2 = list(a1), list(a2)
+            before = snapshot(inst)
+            obs.append(_answer(PAIR_OPS[s[1]], fns[s[1]], a1, a2))
+            if list(a1) != c1 or list(a2) != c2:
+                problems.append("step %d: %s modified the rankings it was given" % (k, PAIR_OPS[s[1]]))
+            pure(k, PAIR_OPS[s[1]] + " on free rankings", before)
+    return {"obs": obs, "problems": problems}
 
 
 def _perturb(rng, p):
@@ -122,7 +438,10 @@ def _perturb(rng, p):
 def _call(op, o1, o2, tup):
     """one call of the real function -> [0, int] | {"float": x} | [1, code] | {"crash": ...}"""
     from preflibtools.properties import distances as D
-    if tup:
+    if tup == 2:                # ids as numpy.int64 (e.g. rows of a sampled array)
+        import numpy as np
+        o1, o2 = tuple(np.int64(a) for a in o1), tuple(np.int64(a) for a in o2)
+    elif tup:
         o1, o2 = tuple((a,) for a in o1), tuple((a,) for a in o2)
     else:
         o1, o2 = tuple(o1), tuple(o2)
@@ -155,6 +474,8 @@ def impl(c):
     from preflibtools.properties import distances as D
     op, pl = c["op"], c["payload"]
     tup = c["tags"].get("tup")
+    if op == "c20.hist":
+        return _hist_impl(c)
     if op == "c20.dm":
         import numpy as np
         which, prof = pl
@@ -204,6 +525,8 @@ def impl(c):
 
 def oracle_requests(c, r):
     op, pl = c["op"], c["payload"]
+    if op == "c20.hist":
+        return _plan(pl)
     if op == "c20.dm":
         return [(op, pl)]
     if op == "c20.tri":
@@ -239,33 +562,58 @@ def _val(r):
     return r[1] if r[0] == 0 else None
 
 
+def _judge_dm(which, prof, r, m):
+    if "bad" in r:
+        return r["bad"]
+    nv = sum(mu for _, mu in prof)
+    if r["shape"] != [nv, nv] or len(m) != nv:
+        return "distance_matrix shape %r, expected %dx%d" % (r["shape"], nv, nv)
+    for i in range(nv):
+        for j in range(nv):
+            e = m[i][j]
+            if e[0] != 0:
+                return "model error in entry"
+            x = r["m"][i][j]
+            if which == 0:
+                good = (x == e[1])
+            else:
+                good = _same_float(x, e[1][0], e[1][1])
+            if not good:
+                return "entry (%d,%d): impl %r, model %r" % (i, j, x, e[1])
+    # the clauses of the property, directly on the returned matrix
+    for i in range(nv):
+        if r["m"][i][i] != 0.0:
+            return "distance_matrix diagonal entry (%d,%d) = %r" % (i, i, r["m"][i][i])
+        for j in range(i):
+            if r["m"][i][j] != r["m"][j][i]:
+                return "distance_matrix not symmetric at (%d,%d)" % (i, j)
+    return None
+
+
+def _judge_hist(c, r, mres):
+    reqs = _plan(c["payload"])
+    if len(r["obs"]) != len(reqs) or len(mres) != len(reqs):
+        return {"kind": "broken-correspondence", "reason": "history: %d answers for %d questions" % (len(r["obs"]), len(reqs))}
+    for k, ((op, pl), ob, m) in enumerate(zip(reqs, r["obs"], mres)):
+        if op == "c20.dm":
+            bad = _judge_dm(pl[0], pl[1], ob, m)
+            if bad:
+                return "question %d (distance_matrix, distance %d, profile as it should be %r): %s" % (k, pl[0], pl[1], bad)
+        else:
+            bad = ob["bad"] if isinstance(ob, dict) and "bad" in ob else _cmp(op, ob, m)
+            if bad:
+                return "question %d (%s %r): %s" % (k, op, pl, bad)
+    if r["problems"]:
+        return r["problems"][0]
+    return None
+
+
 def judge(c, r, mres):
     op = c["op"]
+    if op == "c20.hist":
+        return _judge_hist(c, r, mres)
     if op == "c20.dm":
-        m = mres[0]
-        nv = sum(mu for _, mu in c["payload"][1])
-        if r["shape"] != [nv, nv] or len(m) != nv:
-            return "distance_matrix shape %r, expected %dx%d" % (r["shape"], nv, nv)
-        for i in range(nv):
-            for j in range(nv):
-                e = m[i][j]
-                if e[0] != 0:
-                    return "model error in entry"
-                x = r["m"][i][j]
-                if c["payload"][0] == 0:
-                    good = (x == e[1])
-                else:
-                    good = _same_float(x, e[1][0], e[1][1])
-                if not good:
-                    return "entry (%d,%d): impl %r, model %r" % (i, j, x, e[1])
-        # the clauses of the property, directly on the returned matrix
-        for i in range(nv):
-            if r["m"][i][i] != 0.0:
-                return "distance_matrix diagonal entry (%d,%d) = %r" % (i, i, r["m"][i][i])
-            for j in range(i):
-                if r["m"][i][j] != r["m"][j][i]:
-                    return "distance_matrix not symmetric at (%d,%d)" % (i, j)
-        return None
+        return _judge_dm(c["payload"][0], c["payload"][1], r, mres[0])
     rs = r["rs"]
     names = ["d(a,b)", "d(b,c)", "d(a,c)"] if op == "c20.tri" else ["d(p,q)", "d(q,p)"]
     for nm, ri, mi in zip(names, rs, mres):
@@ -298,6 +646,9 @@ def judge(c, r, mres):
 
 
 def nontrivial(c, r, m):
+    if c["op"] == "c20.hist":
+        kinds = [s[0] for s in c["payload"]]
+        return kinds.count(1) >= 3 and kinds.count(0) >= 2
     if c["op"] == "c20.dm":
         prof = c["payload"][1]
         return len(prof) >= 2 and any(mu > 1 for _, mu in prof)
@@ -308,6 +659,9 @@ def nontrivial(c, r, m):
 
 
 def stats(c, r, m):
+    if c["op"] == "c20.hist":
+        names = {0: "append", 1: "dm", 2: "pair", 3: "maint", 4: "reorder", 5: "other-instance", 6: "free-pair"}
+        return sorted(set("hist has %s" % names[s[0]] for s in c["payload"])) + ["hist questions=%d" % min(len(m), 12)]
     if c["op"] == "c20.dm":
         return ["dm which=%d voters=%d" % (c["payload"][0], sum(mu for _, mu in c["payload"][1]))]
     n = len(c["payload"][0])
@@ -321,10 +675,20 @@ def stats(c, r, m):
 
 
 def describe(c):
-    return {"op": c["op"], "args": c["payload"], "tuple_of_singletons": bool(c["tags"].get("tup"))}
+    return {"op": c["op"], "args": c["payload"],
+            "form": {0: "tuples of ids", 1: "tuples of 1-tuples", 2: "tuples of numpy.int64"}.get(c["tags"].get("tup") or 0)}
 
 
 def shrink(c):
+    if c["op"] == "c20.hist":
+        sc = c["payload"]
+        for i in range(len(sc)):
+            yield dict(c, payload=sc[:i] + sc[i + 1:])
+        for i, s in enumerate(sc):
+            if s[0] == 0 and len(s[2]) > 1:
+                for j in range(len(s[2])):
+                    yield dict(c, payload=sc[:i] + [[0, s[1], s[2][:j] + s[2][j + 1:]]] + sc[i + 1:])
+        return
     if c["op"] == "c20.dm":
         which, prof = c["payload"]
         for i in range(len(prof)):
